@@ -41,7 +41,7 @@ func genC06(t *rapid.T) *ParseCase {
 				}
 				raw = iniValueFor(o, v, false)
 			}
-			l := IniLine{Section: sects[0], Key: o.Field, Value: raw}
+			l := IniLine{Section: sects[0], Key: iniKeyOf(o), Value: raw}
 			if r := RefIni(c.D, []IniLine{l}); r.ErrKind == "" && r.Opts[o.ID] != nil {
 				c.Ini = append(c.Ini, l)
 			}
